@@ -78,6 +78,13 @@ def sites(path, text):
             yield i, "delete statement", "\n".join(lines[:i] + lines[i + 1:])
 
 
+def _clean_logs(out):
+    """remove the per-run work directory a failing check leaves behind (sensitivity runs only)"""
+    import re as _re, shutil as _sh
+    for m in _re.finditer(r"^logs: (/verif/\.build/run-[^\s]+)$", out or "", _re.M):
+        _sh.rmtree(m.group(1), ignore_errors=True)
+
+
 def sh(cmd, cwd=None, env=None, timeout=3600):
     # own process group, so that a timeout also removes grandchildren (test binaries of a check)
     import signal
@@ -112,6 +119,7 @@ def run_mutant(job):
         caught_by = None
         for prop in FILE_PROPS[f]:
             rc, out = sh(["/verif/check", prop, "quick"], cwd="/verif", env=dict(ENV, VERIF_REPO=repo, VERIF_WORKER_TIMEOUT="240"), timeout=600)
+            _clean_logs(out)
             if rc == 1 and "VIOLATION property=%s" % prop in out:
                 caught_by = prop
                 break
